@@ -870,6 +870,113 @@ def r9(ctx):
     ctx.share("C02.R9", lambda c: C03.local_authoring(c, "C03.R9"), "C03.R9", floor=7)
 
 
+def r10(ctx):
+    """"removes exactly the same-author entries whose key starts with its key ... never touches another author's entries or keys
+    that merely sort next to the prefix": the scan range of one author's key prefix (RecordsBounds::author_key, behind the prune
+    and the author-ordered queries) evaluated on concrete ids - incl. author / namespace ids ending in 0xFF and all-0xFF - and
+    prefixes - incl. empty, ending in 0xFF, all-0xFF - and decided on sample rows of this author, of greater and smaller authors
+    and of the next document: exactly (this document, this author, keys starting with the prefix)"""
+    from . import feval as E, coll
+    f = ctx.facts
+    AK = "store::fs::bounds::RecordsBounds::author_key"
+    b = f.body(AK)
+    ctx.touch(*f.scope(AK, prefix="store::fs::bounds::"))
+    C = coll.Collections(f)
+
+    def vec(bs):
+        return coll.seq("vec", [E.Int(x) for x in bs])
+
+    def to_bytes(it, v):
+        v = it.resolve(v)
+        v = it.deref_val(v) if (v is not None and v[0] == "ref") else v
+        if v is not None and v[0] == "seq" and all(E.is_int(it.resolve(x)) for x in v[2]):
+            return bytes(it.resolve(x)[1] for x in v[2])
+        m_ = re.fullmatch(r"\[(\d+); _\]", E.describe(v, f))
+        if m_:
+            return bytes([int(m_.group(1))]) * 32       # `[0u8; 32]`
+        raise ValueError("not a concrete byte string: %s" % E.describe(v, f))
+
+    def run(ns, author, prefix):
+        def oracle(kind, name, payload, site):
+            if kind != "call":
+                return None
+            t, args, it = payload
+            names = [it.tokname(a).strip("&*") for a in args]
+            if name in ("to_bytes", "as_bytes") and names and names[0] in ("ns", "author"):
+                return vec(ns if names[0] == "ns" else author)
+            if name == "new" and callee_matches(t, r"Bytes::new"):
+                return vec(b"")
+            if name in ("to_vec", "into", "from", "clone", "to_owned", "freeze", "copy_from_slice") and len(args) == 1:
+                v = it.deref_val(args[0]) if args[0][0] == "ref" else args[0]
+                if v is not None and v[0] == "seq":
+                    return coll.seq("vec", list(v[2]))
+            return C.handle(kind, name, payload, site)
+        kf = E.variant(f, "store::KeyFilter", "Prefix", vec(prefix))
+        ret, itp = E.run_it(f, AK, [E.Tok("ns"), E.Tok("author"), kf], {}, oracle)
+        rb = itp.resolve(ret)
+        out = []
+        for i in (0, 1):
+            bd = itp.resolve(rb[3][i])
+            kind = {0: "incl", 1: "excl", 2: "unbounded"}[bd[2]]
+            if kind == "unbounded":
+                out.append((kind, None))
+            else:
+                tp = itp.resolve(bd[3][0])
+                out.append((kind, tuple(to_bytes(itp, x) for x in tp[1])))
+        return tuple(out)
+    from . import keyrange
+
+    def succ32(x):
+        d = list(x)
+        for i in range(31, -1, -1):
+            if d[i] != 255:
+                d[i] += 1
+                for j in range(i + 1, 32):
+                    d[j] = 0
+                return bytes(d)
+        return None
+    n = 0
+    for ns in (bytes([7]) * 32, bytes([255]) * 32):
+        for author in (bytes([3]) * 32, bytes([3]) * 31 + b"\xff", bytes([255]) * 32):
+            for prefix in (b"", b"a", b"\xff", b"a\xff", b"\xff\xff"):
+                key = "author-prefix-range[ns=%02x..,author=%s,prefix=%s]" % (ns[0], author[-2:].hex(), prefix.hex() or "empty")
+                n += 1
+                try:
+                    rng = run(ns, author, prefix)
+                except (E.Unsupported, ValueError, KeyError, IndexError, TypeError) as e:
+                    ctx.bad("C02.R10", AK, key, "UNSUPPORTED-FORM: %s" % e, b.sp)
+                    continue
+                authors = {author, bytes(32), bytes([255]) * 32, bytes([author[0]]) + bytes(31), bytes([4]) * 32, bytes([3]) * 31 + b"\xfe"}
+                if succ32(author):
+                    authors.add(succ32(author))
+                if author[-1] != 255:
+                    authors.add(author[:-1] + bytes([author[-1] + 1]))
+                else:
+                    authors.add(author[:-2] + bytes([(author[-2] + 1) % 256, 255]) if author[-2] != 255 else author)
+                nss = {ns}
+                if succ32(ns):
+                    nss.add(succ32(ns))
+                nss.add(bytes([ns[0] - 1]) * 32)
+                keys = {b"", b"\x00", prefix, prefix + b"\x00", prefix + b"\xff", prefix + b"zz", b"\xff\xff\xff", b"b", b"a", b"a\xff\x00", b"b\x00"}
+                if prefix:
+                    keys.add(prefix[:-1])
+                    keys.add(prefix[:-1] + bytes([(prefix[-1] + 1) % 256]))
+                missing, foreign = [], []
+                for n2 in nss:
+                    for a2 in authors:
+                        for k in keys:
+                            want = n2 == ns and a2 == author and k.startswith(prefix)
+                            got = keyrange.inside((n2, a2, k), rng)
+                            if want and not got:
+                                missing.append((n2[:1].hex(), a2[-2:].hex(), k.hex()))
+                            if got and not want:
+                                foreign.append((n2[:1].hex(), a2[-2:].hex(), k.hex()))
+                ctx.check(not missing and not foreign, "C02.R10", AK, key,
+                          "range %s; rows of the prefix outside it: %s; rows of other authors / documents / keys inside it: %s" % (
+                              tuple((k, tuple(x.hex()[-6:] for x in v) if v else None) for k, v in rng), missing[:3], foreign[:3]), b.sp)
+    ctx.floor("C02.R10", 30)
+
+
 def run(ctx):
     ctx.run_rule("C02.R1", r1)
     ctx.run_rule("C02.R2", r2)
@@ -880,3 +987,4 @@ def run(ctx):
     ctx.run_rule("C02.R7", r7)
     ctx.run_rule("C02.R9", r9)
     ctx.run_rule("C02.R8", r8)
+    ctx.run_rule("C02.R10", r10)
